@@ -53,13 +53,28 @@ func unsafeDerefs(p *ir.Path) []*ir.Term {
 
 // lensAddr decomposes an address term; returns base, and whether offset/rootoffs components are exactly right.
 func lensAddr(t *ir.Term, recv *ir.Term) (base *ir.Term, why string) {
+	base, _, why = lensAddrDisp(t, recv, "")
+	return base, why
+}
+
+// lensAddrDisp: as lensAddr; when dispField names an integer field of the lens itself, the address may instead be
+// base + L.<dispField> (the sum Offset + RootOffs computed once, at construction - checked at its writers); usedDisp
+// tells which form was found.
+func lensAddrDisp(t *ir.Term, recv *ir.Term, dispField string) (base *ir.Term, usedDisp bool, why string) {
+	b, w := lensAddrSum(t, recv, dispField, &usedDisp)
+	return b, usedDisp, w
+}
+
+func lensAddrSum(t *ir.Term, recv *ir.Term, dispField string, usedDisp *bool) (base *ir.Term, why string) {
 	sum := t.Args[0].Args[0]
 	if sum.Op != "bin" || sum.Aux != "+" {
 		return nil, "address is not a sum: " + short(sum)
 	}
-	var nOff, nRoot int
+	var nOff, nRoot, nDisp int
 	for _, op := range sum.Args {
 		switch {
+		case dispField != "" && op.Op == "load" && op.Args[0].Op == "faddr" && op.Args[0].Aux == dispField && ir.Same(op.Args[0].Args[0], recv):
+			nDisp++
 		case op.Op == "conv" && op.Aux == "uintptr" && len(op.Args) == 1 && op.Args[0].Op == "conv" && op.Args[0].Aux == "unsafe.Pointer":
 			if base != nil {
 				return nil, "two base pointers in the address"
@@ -82,11 +97,111 @@ func lensAddr(t *ir.Term, recv *ir.Term) (base *ir.Term, why string) {
 			return nil, "unexpected summand " + short(op)
 		}
 	}
-	if base == nil || nOff != 1 || nRoot != 1 {
+	if base != nil && nDisp == 1 && nOff == 0 && nRoot == 0 {
+		*usedDisp = true
+		return base, ""
+	}
+	if base == nil || nOff != 1 || nRoot != 1 || nDisp != 0 {
 		return nil, fmt.Sprintf("address must be base + Offset + RootOffs, each exactly once (base=%v, Offset x%d, RootOffs x%d)", base != nil, nOff, nRoot)
 	}
 	return base, ""
 }
+
+// lensDispField: the single integer-typed field of the lens struct (a displacement cached at construction), "" if
+// the lens has none.
+func lensDispField(nt *types.Named) string {
+	st, ok := nt.Underlying().(*types.Struct)
+	if !ok {
+		return ""
+	}
+	name, n := "", 0
+	for i := 0; i < st.NumFields(); i++ {
+		if b, isB := st.Field(i).Type().Underlying().(*types.Basic); isB && b.Info()&types.IsInteger != 0 && !st.Field(i).Embedded() {
+			name = st.Field(i).Name()
+			n++
+		}
+	}
+	if n != 1 {
+		return ""
+	}
+	return name
+}
+
+// lensDispWriters: every store into the displacement field of a lens writes Offset + RootOffs of the hseq.Type that
+// the same lens object holds. Returns the number of writers and "" when they all do.
+func lensDispWriters(c *core.Ctx, nt *types.Named, dispField string) (int, string) {
+	st := nt.Underlying().(*types.Struct)
+	typeField := ""
+	for i := 0; i < st.NumFields(); i++ {
+		if ft, ok := st.Field(i).Type().(*types.Named); ok && ft.Origin().Obj().Name() == "Type" && ft.Obj().Pkg() != nil && load.Logical(ft.Obj().Pkg().Path()) == "hseq" {
+			typeField = st.Field(i).Name()
+		}
+	}
+	if typeField == "" {
+		return 0, "the lens holds no hseq.Type"
+	}
+	n := 0
+	for _, pkg := range c.W.AllLogical() {
+		for _, fn := range c.W.SourceFuncs(pkg) {
+			writes := false
+			for _, b := range fn.Blocks {
+				for _, in := range b.Instrs {
+					fa, ok := in.(*ssa.FieldAddr)
+					if !ok || fa.Referrers() == nil {
+						continue
+					}
+					pt, _ := fa.X.Type().Underlying().(*types.Pointer)
+					if pt == nil {
+						continue
+					}
+					xt, _ := pt.Elem().(*types.Named)
+					if xt == nil || xt.Origin() != nt || fieldNameOf(fa) != dispField {
+						continue
+					}
+					for _, r := range *fa.Referrers() {
+						if sto, isSt := r.(*ssa.Store); isSt && sto.Addr == ssa.Value(fa) {
+							writes = true
+						}
+					}
+				}
+			}
+			if !writes {
+				continue
+			}
+			an := c.Analyze(fn)
+			if len(an.Problems) > 0 {
+				return n, "a writer of the displacement could not be modelled: " + ir.FuncName(fn)
+			}
+			for _, p := range an.AllPaths() {
+				for _, stp := range p.Events(ir.KStore) {
+					a := stp.A[0]
+					if a.Op != "faddr" || a.Aux != dispField {
+						continue
+					}
+					n++
+					obj := a.Args[0]
+					v := p.End.MemAt(&ir.Term{Op: "faddr", Aux: typeField, Args: []*ir.Term{obj}})
+					if v == nil {
+						return n, "the lens whose displacement is written holds no descriptor on that path (" + ir.FuncName(fn) + ")"
+					}
+					wantOff := ir.FieldOf(ir.FieldOf(v, "StructField"), "Offset")
+					wantRoot := ir.FieldOf(v, "RootOffs")
+					val := stp.A[1]
+					good := val.Op == "bin" && val.Aux == "+" && len(val.Args) == 2 &&
+						(ir.Same(val.Args[0], wantOff) && ir.Same(val.Args[1], wantRoot) || ir.Same(val.Args[1], wantOff) && ir.Same(val.Args[0], wantRoot))
+					if !good {
+						return n, fmt.Sprintf("%s stores %s as the displacement, expected Offset + RootOffs of the descriptor the same lens holds", ir.FuncName(fn), short(val))
+					}
+				}
+			}
+		}
+	}
+	if n == 0 {
+		return 0, "the displacement field is never written"
+	}
+	return n, ""
+}
+
 
 // lensType finds the concrete type NewLens constructs.
 func lensType(c *core.Ctx) *types.Named {
@@ -295,6 +410,8 @@ func runC01(c *core.Ctx) {
 	ms := methodsOf(c, nt)
 	checked := map[*ssa.Function]bool{}
 	norm := map[string]string{}
+	dispField := lensDispField(nt)
+	usedDisp := false
 	for _, mn := range []string{"Get", "Put", "Gett", "Putt"} {
 		fn := ms[mn]
 		name := "optics." + nt.Obj().Name() + "." + mn
@@ -328,7 +445,10 @@ func runC01(c *core.Ctx) {
 			}
 			nDeref++
 			d := ds[0]
-			base, why := lensAddr(d, recv)
+			base, viaDisp, why := lensAddrDisp(d, recv, dispField)
+			if viaDisp {
+				usedDisp = true
+			}
 			if why != "" {
 				okAddr = false
 				c.Fail("addr-term", name, fn.Pos(), "%s", why)
@@ -403,6 +523,11 @@ func runC01(c *core.Ctx) {
 		if okEff {
 			c.Ok(effRule(isWrite), name, fn.Pos(), "")
 		}
+	}
+	if usedDisp {
+		// the displacement read by the accessors is Offset + RootOffs of the lens's own descriptor at every writer
+		n, why := lensDispWriters(c, nt, dispField)
+		c.Check(why == "", "addr-term", "optics."+nt.Obj().Name()+"#"+dispField, nt.Obj().Pos(), fmt.Sprintf("%d writers store Offset + RootOffs of the descriptor held", n), "%s", why)
 	}
 	agree := len(norm) == 4
 	for _, v := range norm {
@@ -894,10 +1019,17 @@ func pairingRules(c *core.Ctx) {
 	// ---- hseq.FMapN: i-th result is f_i(ts[i-1])
 	for _, fn := range familyFuncs(c, "hseq", "FMap") {
 		name := "hseq." + fn.Name()
-		p := singlePath(c, "pairing", name, fn)
-		if p == nil {
+		// (an arity defined through the next lower one is followed all the way down)
+		an := c.AnalyzeDeep(fn, ir.NewRootState(fn, nil, nil, nil), "fmap", 12)
+		if problems(c, "pairing", name, an) {
 			continue
 		}
+		aps := an.AllPaths()
+		if len(aps) != 1 || aps[0].Exit != ir.ExitReturn {
+			c.Fail("pairing", name, fn.Pos(), "expected one straight-line returning path, found %d paths", len(aps))
+			continue
+		}
+		p := aps[0]
 		n := len(fn.Params) - 1
 		ok := len(p.Results) == n && len(calls(p)) == n
 		why := fmt.Sprintf("%d results / %d calls for %d functions", len(p.Results), len(calls(p)), n)
